@@ -125,6 +125,9 @@ func positionWrappers(v reflect.Value, full bool) []any {
 	}
 	mk([]reflect.StructField{a, {Name: "P", Type: pt, Tag: `json:"p"`}, z}, 1, p)
 	mk([]reflect.StructField{{Name: "P", Type: pt, Tag: `json:"p"`}, z}, 0, p)
+	// the same two with the pointer nil (same types: nothing new to compile)
+	mk([]reflect.StructField{a, {Name: "P", Type: pt, Tag: `json:"p"`}, z}, 1, reflect.Zero(pt))
+	mk([]reflect.StructField{{Name: "P", Type: pt, Tag: `json:"p"`}, z}, 0, reflect.Zero(pt))
 	mk([]reflect.StructField{a, {Name: "S", Type: t, Tag: `json:"s"`}, z}, 1, v)
 	sl := reflect.MakeSlice(reflect.SliceOf(pt), 2, 2)
 	sl.Index(0).Set(p)
